@@ -131,8 +131,13 @@ func solve(query string, dir, name string, secs int, solverNames []string) Solve
 			if a.status == "timeout" && res.Status != "unknown" || a.status == "timeout" {
 				res.Status = "timeout"
 			}
-			if a.status == "error" && res.Raw == "" {
-				res.Raw = a.raw
+			if a.status == "error" {
+				if res.Raw == "" {
+					res.Raw = a.raw
+				}
+				if res.Status == "unknown" && len(res.Tried) == 1 {
+					res.Status = "error"
+				}
 			}
 			if a.status == "unknown" {
 				res.Status = "unknown"
